@@ -340,6 +340,90 @@ def rule_r8(ctx):
             r.ob(f, "%s line %s: controlled by tests of the host only" % (show(t.node), t.line))
 
 
+def rule_r9(ctx):
+    r = ctx.rule("C19.R9", "T1", "percent-escapes decode to the right value: in url_hex_val every branch returns (c - base) [+ 10] with the "
+                 "base of the very range it tested (c >= base): an upper-case digit decoded with the lower-case base yields a "
+                 "different byte, so valid UTF-8 escapes are refused, invalid ones accepted, and canonical forms differ", floor=3)
+    f = ctx.prog.need("url_hex_val", "core/url.c")
+    if not f.params:
+        raise AnalysisBroken("url_hex_val lost its parameter")
+    cv = f.params[0]["n"]
+    facts = G.edge_facts(f)
+    n = 0
+    for t in f.sites():
+        nd = t.node
+        if nd.get("k") != "ret" or nd.get("e") is None:
+            continue
+        subs = [m for m in walk(f.expand(nd["e"])) if m.get("k") == "bin" and m.get("op") == "-" and
+                (lambda l: l is not None and any(x.get("k") == "var" and x["n"] == cv for x in walk(l)))(m.get("lhs")) and const_of(m.get("rhs")) is not None]
+        if not subs:
+            continue
+        n += 1
+        base = const_of(subs[0]["rhs"])
+        lows = set()
+        for bid, k, atom, val in facts:
+            if atom.get("k") == "bin" and atom.get("op") in (">=", ">", "<", "<=") and G.dominated(f, (t.b, t.i), {bid: k}):
+                l, rr, op = atom["lhs"], atom["rhs"], atom["op"]
+                if const_of(l) is not None:
+                    l, rr, op = rr, l, {">=": "<=", "<=": ">=", ">": "<", "<": ">"}[op]
+                kk = const_of(rr)
+                if kk is None or not any(x.get("k") == "var" and x["n"] == cv for x in walk(l)):
+                    continue
+                if (op == ">=" and val):
+                    lows.add(kk)
+                elif (op == "<" and not val):
+                    lows.add(kk)
+                elif (op == ">" and val):
+                    lows.add(kk + 1)
+        if base in lows:
+            r.ob(f, "return at line %s subtracts the base %d of its own range" % (t.line, base))
+        else:
+            ctx.fail(r, f, "hex digit decoded with the base of another range", t.line,
+                     "url_hex_val returns c - %d at line %s on a path that established c >= %s: the digit is decoded with the "
+                     "wrong base and the escape yields a different byte" % (base, t.line, "/".join(str(x) for x in sorted(lows)) or "?"))
+    if n < 3:
+        raise AnalysisBroken("only %d digit ranges found in url_hex_val" % n)
+
+
+def rule_r10(ctx):
+    r = ctx.rule("C19.R10", "T2", "the whole host is folded to lower case: the loop of the parser that stores tolower() into u_hostname[i] is "
+                 "left only when the terminating NUL is reached -- a loop that also stops at some other character (the first ':' "
+                 "of an IPv6 literal) leaves the rest of the host as it was written, and two spellings of one address parse to "
+                 "different hosts", floor=1)
+    f = ctx.prog.need("nni_url_parse_inline_inner", "core/url.c")
+    stores = [t for t in f.assigns() if t.node["lhs"].get("k") == "idx" and "u_hostname" in show(t.node["lhs"]) and
+              any(m.get("k") == "call" and m.get("fn") == "tolower" or "tolower" in (m.get("m") or ()) for m in walk(f.expand(t.node["rhs"])))]
+    G.need_sites(stores, "tolower store into u_hostname", f)
+    dom = f.dominators()
+    facts = G.edge_facts(f)
+    for t in stores:
+        # the innermost loop around the store: a head h that dominates the store's block and is reached back from it
+        live = {b for (b, i) in f.reach((f.entry, 0))}      # glibc's tolower() macro leaves unreachable blocks behind
+        heads = [h for h in dom[t.b] if any(p_ in live and h in dom[p_] for p_ in f.blocks[h].preds)]
+        heads = [h for h in heads if (h, 0) in f.reach((t.b, t.i + 1))]
+        if not heads:
+            raise AnalysisBroken("the lower-casing store is not inside a loop any more")
+        h = max(heads, key=lambda x: len(dom[x]))
+        body = {b for b in f.blocks if b in live and h in dom[b] and (h, 0) in f.reach((b, 0))}
+        bad = None
+        for b in body:
+            blk = f.blocks[b]
+            for k, sx in enumerate(blk.succs):
+                if sx is None or sx in body:
+                    continue
+                # an exit edge: it must be the edge on which u_hostname[i] is zero
+                ok = any(bid == b and kk == k and not val and "u_hostname" in show(atom) and atom.get("k") in ("idx", "cast", "un")
+                         for bid, kk, atom, val in facts)
+                if not ok:
+                    bad = (b, k)
+        if bad:
+            ctx.fail(r, f, "the host lower-casing loop has another way out", f.line_of(bad[0], 0),
+                     "the loop that lower-cases u_hostname (store at line %s) can be left at line %s on an edge that is not the "
+                     "end of the string: the characters after that point keep their case" % (t.line, f.line_of(bad[0], 0)))
+        else:
+            r.ob(f, "lower-casing loop at line %s ends only at the NUL" % t.line)
+
+
 def run(ctx):
     ctx.guard(rule_r1)
     ctx.guard(rule_r2)
@@ -348,3 +432,5 @@ def run(ctx):
     ctx.guard(rule_r6)
     ctx.guard(rule_r7)
     ctx.guard(rule_r8)
+    ctx.guard(rule_r9)
+    ctx.guard(rule_r10)
